@@ -17,7 +17,7 @@ from hypothesis import strategies as st
 
 from icalendar.timezone import tzp
 
-ZONES = ["Europe/Berlin", "America/New_York", "Asia/Kolkata", "Australia/Lord_Howe", "America/Sao_Paulo", "Pacific/Auckland"]
+ZONES = ["Europe/Berlin", "America/New_York", "Asia/Kolkata", "Australia/Lord_Howe", "America/Sao_Paulo", "Pacific/Auckland", "Etc/UTC", "Etc/GMT+5", "Zulu"]
 
 
 def dec(x, provider=None):
